@@ -2,6 +2,10 @@ package main
 
 import (
 	"bytes"
+	"crypto"
+	_ "crypto/sha1"
+	_ "crypto/sha256"
+	_ "crypto/sha512"
 	"fmt"
 
 	"github.com/foxboron/go-uefi/sample"
@@ -59,4 +63,15 @@ func main() {
 		e1 = b.Add([]byte{6})
 		fmt.Println(e(e1), b.Dir.VirtualAddress, b.Dir.Size, b.All(), b.DrainCopy(), b.DrainCopy())
 	}
+	// session 7: the memoising closure handed to an external function (rounds of algorithms; SHA-1, SHA-256, SHA-512)
+	for _, rounds := range [][][]crypto.Hash{
+		{},
+		{{crypto.SHA256}},
+		{{crypto.SHA256, crypto.SHA256, crypto.SHA1}, {}, {crypto.SHA1, crypto.SHA512, crypto.SHA256}},
+	} {
+		total, calls, err := sample.Memo([]byte{1, 2, 3}, rounds)
+		fmt.Println(total, calls, e(err))
+	}
+	n, err := sample.Plain([]byte{4, 5}, []crypto.Hash{crypto.SHA1, crypto.SHA256})
+	fmt.Println(n, e(err))
 }
